@@ -57,15 +57,21 @@ func (s *ForeignRead) Run(env *core.Env, st *core.Stats) (vs []core.Violation) {
 		if nt {
 			st.Distinct(h)
 		}
-		st.Sample(s)
+		if len(data) < 4096 {
+			st.Sample(s)
+		}
 	}
 	ro := readBytes(data, false)
 	// sources differ in what else they implement: a plain reader, a seekable one (file,
 	// bytes.Reader), and one that has a Seek method that fails at run time (a pipe opened
 	// as *os.File). The decoding must not depend on it.
-	for i, alt := range []readOutcome{readPlain(data), readFrom(&pipeLike{r: bytes.NewReader(data)}, len(data), false)} {
+	// ... and a seekable source that is not at its start when it is handed over (an SMF
+	// embedded in a container, after a consumed preamble)
+	pre := bytes.NewReader(append([]byte("RIFF\x00\x00\x00\x00RMIDdata\x00\x00\x00\x00"), data...))
+	pre.Seek(20, io.SeekStart)
+	for i, alt := range []readOutcome{readPlain(data), readFrom(&pipeLike{r: bytes.NewReader(data)}, len(data), false), readFrom(pre, len(data), false)} {
 		if outcomeSig(alt) != outcomeSig(ro) {
-			kind := []string{"plain-reader", "seek-fails"}[i]
+			kind := []string{"plain-reader", "seek-fails", "seekable-at-offset"}[i]
 			vs = append(vs, core.V("decode", "source-kind:"+kind, "decoding depends on the kind of source: bytes.Reader gives %s, %s source gives %s; file %s", describeOutcome(ro), kind, describeOutcome(alt), core.Trunc(core.HexStr(data), 300)))
 			return vs
 		}
